@@ -15,8 +15,9 @@ Theorem C18_checked_reports :
 Proof. exact checked_reports. Qed.
 Print Assumptions C18_checked_reports.
 
-(* The transcribed zson, zjson, text, zeek, lake and vng writers (on the sink
-   or on pkg/bufwriter) pass the checker for every call pattern, hence report. *)
+(* The transcribed zson, zjson, text, zeek, lake, csv/tsv, table and vng
+   writers (on the sink or on pkg/bufwriter) pass the checker for every call
+   pattern, hence report every failed sink call. *)
 Theorem C18_transcribed_writers_report :
   forall k buffered cs nclose spill f ws cl v s,
     sound_kind k = true ->
@@ -34,50 +35,25 @@ Theorem C18_json_writer_reports :
 Proof. exact json_writer_reports. Qed.
 Print Assumptions C18_json_writer_reports.
 
-(* pkg/bufwriter: whatever a writer does with the errors of its writes, on a
-   bufio layer closed by Flush-then-Close a failed sink call is reported. *)
+(* zngio.Writer (state machine over pending type/value bytes, frame threshold,
+   position/flushed test before the end-of-stream marker): every failed sink
+   call is reported, for all value sizes, thresholds, faults, on the sink
+   directly or on pkg/bufwriter. *)
+Theorem C18_zng_reports :
+  forall e thresh szs v s l n,
+    zrun e thresh szs = (v, s, l, n) -> s_faulted s = true -> v <> 0.
+Proof. exact zng_reports. Qed.
+Print Assumptions C18_zng_reports.
+
+(* pkg/bufwriter: whatever a writer does with the errors of its writes (even
+   dropping all of them), on a bufio layer closed by Flush-then-Close a failed
+   sink call is reported at the latest by Close. *)
 Theorem C18_buffered_reports :
   forall e ops a v s,
     e_buf e = true -> forallb no_close ops = true -> no_close a = true ->
     run e ops (Both a (sink_close true)) = (v, s) -> s_faulted s = true -> v <> 0.
 Proof. exact buffered_reports. Qed.
 Print Assumptions C18_buffered_reports.
-
-(* zngio.Writer as it is (flush swallows writeBlock errors): reported on
-   pkg/bufwriter, for all values, thresholds and faults ... *)
-Theorem C18_zng_on_bufwriter_reports :
-  forall e sw thresh szs v s l n,
-    e_buf e = true ->
-    zrun e sw thresh szs = (v, s, l, n) -> s_faulted s = true -> v <> 0.
-Proof. exact zng_on_bufwriter_reports. Qed.
-Print Assumptions C18_zng_on_bufwriter_reports.
-
-(* ... but not directly on a sink: the faithful model violates the statement. *)
-Theorem C18_zng_direct_refuted :
-  exists f thresh szs,
-    let '(v, s, _, _) := zrun (mkEnv false [] f) true thresh szs in v = 0 /\ s_faulted s = true.
-Proof. exact zng_current_refuted. Qed.
-Print Assumptions C18_zng_direct_refuted.
-
-(* With flush returning the error (the proposed fix) zngio reports always. *)
-Theorem C18_zng_fixed_reports :
-  forall e thresh szs v s l n,
-    zrun e false thresh szs = (v, s, l, n) -> s_faulted s = true -> v <> 0.
-Proof. exact zng_fixed_reports. Qed.
-Print Assumptions C18_zng_fixed_reports.
-
-(* csvio.Writer.Close and tableio.Writer.Write drop an error: refuted. *)
-Theorem C18_csv_close_refuted :
-  exists f ws cl, write_skels KCsv [0; 0] = Some ws /\ close_skel KCsv false 1 = Some cl /\
-    let '(v, s) := run (static_env KCsv false [] f) ws cl in v = 0 /\ s_faulted s = true.
-Proof. exact csv_close_refuted. Qed.
-Print Assumptions C18_csv_close_refuted.
-
-Theorem C18_table_flush_refuted :
-  exists f ws cl, write_skels KTable [0; 0; 9; 0] = Some ws /\ close_skel KTable false 9 = Some cl /\
-    let '(v, s) := run (static_env KTable false [] f) ws cl in v = 0 /\ s_faulted s = true.
-Proof. exact table_flush_refuted. Qed.
-Print Assumptions C18_table_flush_refuted.
 
 (* Converse directions: an error is reported only if a sink call failed, and
    with a sink that never fails nothing is reported. *)
